@@ -111,6 +111,18 @@ func (r *RegistrationDB) RemoveRegistration(k Registration) {
 	delete(r.registrationMap, k)
 }
 
+// remove a Registration only if it has no producers (checked and removed
+// under the same lock); reports whether it was removed
+func (r *RegistrationDB) RemoveRegistrationIfEmpty(k Registration) bool {
+	r.Lock()
+	defer r.Unlock()
+	if len(r.registrationMap[k]) > 0 {
+		return false
+	}
+	delete(r.registrationMap, k)
+	return true
+}
+
 func (r *RegistrationDB) needFilter(key string, subkey string) bool {
 	return key == "*" || subkey == "*"
 }
